@@ -1017,6 +1017,36 @@ pub fn c13_double_literal() {
         None => check!(got.is_err(), "a double literal out of range is a compile error"),
     }
 }
+/// C10: macros whose predicate / transform is a literal, over lists, maps and a non-collection receiver.
+pub fn c10_literal_predicate() {
+    let (mac, pred, recv): (u8, u8, u8) = (any(), any(), any());
+    crate::sym::assume(mac <= 4 && pred <= 1 && recv <= 4);
+    let p = pred == 0;
+    let ptxt = if p { "true" } else { "false" };
+    let (rtxt, elems): (&str, Option<Vec<Value>>) = match recv {
+        0 => ("[1, 2]", Some(vec![Value::Int(1), Value::Int(2)])),
+        1 => ("{'a': 1}", Some(vec![Value::String(Arc::new("a".to_string()))])),
+        2 => ("[]", Some(vec![])),
+        3 => ("[7]", Some(vec![Value::Int(7)])),
+        _ => ("5", None),
+    };
+    let name = ["all", "exists", "exists_one", "map", "filter"][mac as usize];
+    let src = format!("{}.{}(x, {})", rtxt, name, ptxt);
+    let got = Program::compile(&src).expect("compiles").execute(&Context::default());
+    let Some(elems) = elems else {
+        check!(got.is_err(), "a macro over a non-collection is an error");
+        return;
+    };
+    let n = elems.len();
+    let want = match mac {
+        0 => Value::Bool(!(n > 0 && !p)),
+        1 => Value::Bool(n > 0 && p),
+        2 => Value::Bool(p && n == 1),
+        3 => Value::List(Arc::new(elems.iter().map(|_| Value::Bool(p)).collect())),
+        _ => Value::List(Arc::new(if p { elems.clone() } else { vec![] })),
+    };
+    check!(got == Ok(want), "the macro computes its defining fold over the elements (map: the keys)");
+}
 /// C10 native replay: the five macros over a list of 0-3 booleans with a logging predicate.
 pub fn c10_macro() {
     let (mac, n, bits): (u8, u8, u8) = (any(), any(), any());
@@ -1369,6 +1399,7 @@ crate::replay_only! {
     #[kani::unwind(2)] c04_prefix: "off", "runs of 1-9 prefix ! / - over a literal or a variable through Program::compile + execute", "k in 1..9";
     #[kani::unwind(2)] c04_binary: "off", "x OP y for the twelve binary operator texts and ?: with operands of three shapes: references() and value", "13 operators x 9 shape pairs";
     #[kani::unwind(2)] c04_chain: "off", "chains of 1-64 logging operands under && / ||", "n in 1..64";
+    #[kani::unwind(2)] c10_literal_predicate: "off", "the five macros with a literal predicate over lists, a map and a non-collection", "5 macros x 2 literals x 5 receivers";
     #[kani::unwind(2)] c12_literal: "off", "a string / bytes literal token through Program::compile + execute against an independent decoder of the CEL literal syntax", "token text of up to 24 characters taken from the vector";
     #[kani::unwind(2)] c13_literal: "off", "int / uint literals of every sign, radix and magnitude through Program::compile + execute", "text built from the vector";
     #[kani::unwind(2)] c13_double_literal: "off", "eight double literal texts", "fixed list";
